@@ -30,11 +30,11 @@ def run(ctx):
     done = 0
     cfg_i = 0
     while done < n_blocks:
-        cfg = cfg_i % 2
+        cfg = 0 if cfg_i % 3 == 2 else 1      # mostly easy targets: there an altered header often still has an id below target
         cfg_i += 1
         lines = chain.patch(horizon=-1) if cfg == 0 else chain.patch(horizon=-1, interval=6, timespan=720)
         keys = chain.Keys(rng, 4)
-        genesis = None if cfg == 0 else chain.custom_genesis(keys, target=bytes([0x0f]) + b"\xff" * 31)
+        genesis = None if cfg == 0 else chain.custom_genesis(keys, target=bytes([rng.choice([0x7f, 0x7f, 0x1f])]) + b"\xff" * 31)
         tree = chain.Tree(rng, keys, genesis=genesis)
         tree.grow(rng.randrange(6, 14), fork_prob=0.35)
         ops = list(lines) + keys.oracle_lines() + ["new t"]
